@@ -3,6 +3,7 @@
 //!        mc replay <file.json>
 mod alphabets;
 mod engine;
+mod machine;
 mod props;
 mod real;
 mod refmodel;
